@@ -58,7 +58,9 @@ def init_domains(dist_nb: int, mark_nb: int) -> NDArray:
     domains = np.empty((dist_nb, 2), dtype=np.int32)
     for i in range(0, mark_nb - 1):
         for j in range(i + 1, mark_nb):
-            domains[index(mark_nb, i, j), MIN] = GOLOMB_LENGTHS[j - i + 1] if j - i + 1 < mark_nb else sum_first(j - i)
+            domains[index(mark_nb, i, j), MIN] = (
+                GOLOMB_LENGTHS[j - i + 1] if j - i + 1 < min(mark_nb, len(GOLOMB_LENGTHS)) else sum_first(j - i)
+            )
     domains[:, MAX] = sum_first(dist_nb)
     return domains
 
